@@ -46,7 +46,29 @@ fn eval(scene: &Scene) -> Result<Option<u64>, Violation> {
                 if p.contains("sw-composite") && p.contains("assertion failed") && p.contains("<= a") {
                     // the dependency's own debug assertion in pack_argb32: a non-separable blend
                     // produced a colour channel above alpha for valid premultiplied inputs
-                    return Err(Violation::new(format!("{}/dependency-asserts-channel-exceeds-alpha", op.kind()), case, format!("after step {} ({}): {}", k, op.kind(), p)).finding(Some("sw_composite_nonseparable_channel_exceeds_alpha")));
+                    let m = match op {
+                        Op::Fill(_, _, o) | Op::FillRect(_, _, _, _, _, o) | Op::Stroke(_, _, _, o) | Op::DrawImageAt(_, _, _, _, _, o) | Op::DrawImageSize(_, _, _, _, _, _, _, o) => mode_name(o.mode),
+                        Op::PopLayer => {
+                            // the blend mode of the layer being popped
+                            let mut st: Vec<BlendMode> = Vec::new();
+                            for o in &scene.ops[..k] {
+                                match o {
+                                    Op::PushLayer(_, b) => st.push(*b),
+                                    Op::PopLayer => {
+                                        st.pop();
+                                    }
+                                    _ => {}
+                                }
+                            }
+                            st.last().map(|b| mode_name(*b)).unwrap_or_else(|| "-".to_string())
+                        }
+                        _ => "-".to_string(),
+                    };
+                    // the listed finding is the dependency's Color blend (the only mode observed to do
+                    // this on the unchanged tree); the same assertion reached through any other
+                    // requested mode is a different violation
+                    let fid = if m == "Color" { Some("sw_composite_nonseparable_channel_exceeds_alpha") } else { None };
+                    return Err(Violation::new(format!("{}/dependency-asserts-channel-exceeds-alpha/{}", op.kind(), m), case, format!("after step {} ({}): {}", k, op.kind(), p)).finding(fid));
                 }
                 if crate::checks::common::is_dependency_panic(&p) {
                     return Ok(None);
